@@ -38,6 +38,5 @@ TEXT = dict(
                "Histories themselves are explored, not enumerated. No absence claim beyond the images actually built.",
     level_note="Trusted: strace's report of system calls and their order, the append-only reconstruction of file contents (verified per trace), gogo-protobuf, the harness's frame walker. "
                "Sync points are observed, the durability promise of each API call is taken from the documented policy. A loud failure is accepted for every image (the property says so); "
-               "evidence labels show how many sector-granular images ended loud. Two open known findings narrow the search: flips of the record-type byte are excluded, "
-               "and optimizedFsync histories are explored only up to the first Save that must fsync and rolls the segment.",
+               "evidence labels show how many sector-granular images ended loud. One open known finding narrows the search: flips of the record-type byte are excluded (C05-record-type-not-checksummed). The optimizedFsync cut finding, the stale temp segment and the replay truncation rule are repaired in /repo.",
 )
